@@ -27,6 +27,7 @@ import (
 	"os"
 	"path/filepath"
 	goruntime "runtime"
+	"sort"
 	"strconv"
 	"strings"
 
@@ -65,27 +66,39 @@ type Op struct {
 type Hot struct {
 	Body     string `json:"body"`
 	Requests int    `json:"requests"`
+	// Files: name -> content, written into the case directory before the first request (templates, included files); the
+	// text DIR in Body and in the contents is replaced by that directory.  NoRewrite: do not rewrite App/P.php per request.
+	// Probe: names that only request-level code declares: after EVERY request the base VM and a fresh TempVM must
+	// resolve none of them as class, interface or function (Step.Leak lists what they do resolve).
+	Files     map[string]string `json:"files,omitempty"`
+	Probe     []string          `json:"probe,omitempty"`
+	NoRewrite bool              `json:"norewrite,omitempty"`
 }
 
 type Case struct {
-	Hot     *Hot     `json:"hot,omitempty"`
-	GC      bool     `json:"gc"`      // collect garbage after every discard (address reuse by later TempVMs)
-	Shared  []string `json:"shared"`  // class names N for which the base defines c12new_N() and class c12child_N extends N
-	Scripts bool     `json:"scripts"` // the history contains script-level ops: load the PHP function library
-	Names   []string `json:"names"`
-	Consts  []string `json:"consts"`
-	CP      []CP     `json:"cp"`
-	Ops     []Op     `json:"ops"`
+	Hot    *Hot     `json:"hot,omitempty"`
+	GC     bool     `json:"gc"`     // collect garbage after every discard (address reuse by later TempVMs)
+	Shared []string `json:"shared"` // class names N for which the base defines c12new_N() and class c12child_N extends N
+	// Callbacks: class names that NO class-path file provides; for name k an spl autoload callback is registered
+	// (parser.AddAutoLoad, process-wide, reset by NewVM) that defines class Callbacks[k] (definition id 2000+k) on the VM
+	// of the context it is called with, and declines every other name (composer classmap / legacy autoloader)
+	Callbacks []string `json:"callbacks,omitempty"`
+	Scripts   bool     `json:"scripts"` // the history contains script-level ops: load the PHP function library
+	Names     []string `json:"names"`
+	Consts    []string `json:"consts"`
+	CP        []CP     `json:"cp"`
+	Ops       []Op     `json:"ops"`
 }
 
 // one step: R = result of the op: 0 ok / nothing, 1 error(throw), 2 panic, 3 skipped (dead vm);
 // D = definition id returned by goc/goi/pkg (-1 none); Look = flat lookup vector (see sweep)
 type Step struct {
-	R    int    `json:"r"`
-	D    int    `json:"d"`
-	Look []int  `json:"look"`
-	Msg  string `json:"msg,omitempty"`
-	Out  string `json:"out,omitempty"`
+	R    int      `json:"r"`
+	D    int      `json:"d"`
+	Look []int    `json:"look"`
+	Msg  string   `json:"msg,omitempty"`
+	Out  string   `json:"out,omitempty"`
+	Leak []string `json:"leak,omitempty"`
 }
 
 type Obs struct {
@@ -214,6 +227,33 @@ func (w *world) parserFor(i int) *parser.Parser {
 	p := w.temps[i].PrepareParse(w.p)
 	w.tp[i] = p
 	return p
+}
+
+// splCallback: a Go-implemented spl autoload callback ($name)
+type splCallback struct {
+	k    int
+	name string
+}
+
+func (c *splCallback) GetName() string { return fmt.Sprintf("c12autoload%d", c.k) }
+func (c *splCallback) GetParams() []data.GetValue {
+	return []data.GetValue{node.NewParameter(nil, "name", 0, nil, nil)}
+}
+func (c *splCallback) GetVariables() []data.Variable {
+	return []data.Variable{node.NewVariable(nil, "name", 0, nil)}
+}
+func (c *splCallback) Call(ctx data.Context) (data.GetValue, data.Control) {
+	v, _ := ctx.GetIndexValue(0)
+	s, ok := v.(data.AsString)
+	if !ok || s.AsString() != c.name {
+		return data.NewNullValue(), nil
+	}
+	file := fmt.Sprintf("d%d.php", 2000+c.k)
+	from := node.NewTokenFrom(&file, 0, 0, 0, 0)
+	if acl := ctx.GetVM().AddClass(node.NewClassStatement(from, c.name, "", nil, nil, map[string]data.Method{})); acl != nil {
+		return nil, acl
+	}
+	return data.NewBoolValue(true), nil
 }
 
 // declSrc: the declaration of (kind, name); a name with a namespace prefix is declared by its short name after a
@@ -695,6 +735,10 @@ func runHot(h *Hot) (obs Obs) {
 	php.Load(base)
 	ohttp.Load(base)
 	base.AddNamespace("App", dir)
+	for name, content := range h.Files {
+		os.WriteFile(filepath.Join(dir, name), []byte(strings.ReplaceAll(content, "DIR", dir)), 0o644)
+	}
+	h.Body = strings.ReplaceAll(h.Body, "DIR", dir)
 	prog, acl := p.ParseString("function h($r, $w) {\n"+h.Body+"\n}\n", "hot.zy")
 	if acl != nil {
 		return Obs{Err: "parse: " + acl.AsString()}
@@ -710,7 +754,9 @@ func runHot(h *Hot) (obs Obs) {
 	serverCtx := base.CreateContext(nil)
 	hh := ohttp.HotHandler{Value: fn, Ctx: serverCtx.CreateContext(fn.GetVariables())}
 	for k := 1; k <= h.Requests; k++ {
-		write(k)
+		if !h.NoRewrite {
+			write(k)
+		}
 		thrown = nil
 		rec := httptest.NewRecorder()
 		st := Step{D: -1}
@@ -728,6 +774,22 @@ func runHot(h *Hot) (obs Obs) {
 			st.Msg = thrown.AsString()
 		}
 		st.Out = rec.Body.String()
+		// the request is over: nothing it declared may be resolvable through the base or through another request's VM
+		fresh := runtime.NewTempVM(base)
+		for _, nm := range h.Probe {
+			for who, v := range map[string]data.VM{"base": base, "fresh-temp": fresh} {
+				if _, ok := v.GetClass(nm); ok {
+					st.Leak = append(st.Leak, who+":class:"+nm)
+				}
+				if _, ok := v.GetInterface(nm); ok {
+					st.Leak = append(st.Leak, who+":interface:"+nm)
+				}
+				if _, ok := v.GetFunc(nm); ok {
+					st.Leak = append(st.Leak, who+":function:"+nm)
+				}
+			}
+		}
+		sort.Strings(st.Leak)
 		obs.Steps = append(obs.Steps, st)
 	}
 	// the base must not have the class
@@ -763,6 +825,9 @@ func runCase(c *Case) (obs Obs) {
 		php.Load(w.base) // class_exists / interface_exists and the rest of the PHP function library
 	}
 	w.base.AddNamespace("App", dir)
+	for k, n := range c.Callbacks {
+		parser.AddAutoLoad(data.NewFuncValue(&splCallback{k: k, name: n}))
+	}
 	for _, n := range c.Shared {
 		src := fmt.Sprintf("function c12new_%s() { $o = new %s(); return $o->c12src; }\nclass c12child_%s extends %s { public function __construct() {} }\n", sharedName(n), n, sharedName(n), n)
 		p := w.p.Clone()
